@@ -1,6 +1,11 @@
-"""C13, continued: LayerRule / DiagramRule histories and entry-point options (filled in once the layer / diagram
-models exist)."""
+"""C13, continued: LayerRule / DiagramRule histories and entry-point options."""
+from . import c16
 
 
 def run(ctx):
-    return None
+    c16.layer_rule_histories(ctx, 3 if ctx.quick() else 4, prop="C13")
+    try:
+        from . import c13_entry
+    except ImportError:
+        return None
+    return c13_entry.run(ctx)
